@@ -297,6 +297,10 @@ func (cmd commandEprt) Execute(conn *Conn, param string) {
 		conn.writeMessage(425, "Data connection failed")
 		return
 	}
+	if conn.dataConn != nil {
+		// a new data socket replaces the previous one
+		conn.dataConn.Close()
+	}
 	conn.dataConn = socket
 	conn.writeMessage(200, "Connection established ("+strconv.Itoa(port)+")")
 }
@@ -335,6 +339,10 @@ func (cmd commandEpsv) Execute(conn *Conn, param string) {
 
 	log.Debugf("EPSV: new socket on port: %d", socket.Port)
 
+	if conn.dataConn != nil {
+		// a new data socket replaces the previous one
+		conn.dataConn.Close()
+	}
 	conn.dataConn = socket
 	msg := fmt.Sprintf("Entering Extended Passive Mode (|||%d|)", socket.Port())
 	conn.writeMessage(229, msg)
@@ -555,6 +563,10 @@ func (cmd commandPasv) Execute(conn *Conn, param string) {
 
 	log.Debugf("PASV: new socket on port: %d", socket.Port)
 
+	if conn.dataConn != nil {
+		// a new data socket replaces the previous one
+		conn.dataConn.Close()
+	}
 	conn.dataConn = socket
 	p1 := socket.Port() / 256
 	p2 := socket.Port() - (p1 * 256)
@@ -592,6 +604,10 @@ func (cmd commandPort) Execute(conn *Conn, param string) {
 	if err != nil {
 		conn.writeMessage(425, "Data connection failed")
 		return
+	}
+	if conn.dataConn != nil {
+		// a new data socket replaces the previous one
+		conn.dataConn.Close()
 	}
 	conn.dataConn = socket
 	conn.writeMessage(200, "Connection established ("+strconv.Itoa(port)+")")
